@@ -377,6 +377,10 @@ func (C19) Run(t *testing.T, plan *kernel.Plan, keepLog bool) *kernel.Result {
 			}
 			if binaryRes {
 				st.Extended, st.ResultFormats, st.Describe = true, []int16{0, 0, 1, 1}[:len(names)], true
+				if i%2 == 1 {
+					// one format code for all columns, as clients that ask for binary results send it
+					st.ResultFormats = []int16{1}
+				}
 			} else if plan.Sw("describe") == 1 {
 				st.Extended, st.Describe = true, true
 			}
@@ -435,9 +439,53 @@ func (C19) Run(t *testing.T, plan *kernel.Plan, keepLog bool) *kernel.Result {
 			for i := range values {
 				rs = append(rs, read(i))
 			}
+			allAt := -1
+			if policy != "error" && len(values) >= 2 {
+				// all rows in one result set: what is done to the cells of one row must not change how the next is read
+				all := read(0)
+				all.SQL = strings.Replace(strings.Replace(all.SQL, "WHERE id = 1", "WHERE id <> 0", 1), "WHERE id = ?", "WHERE id <> ?", 1)
+				if len(all.Args) == 1 {
+					all.Args = []interface{}{int64(0)}
+				}
+				allAt = len(rs)
+				rs = append(rs, all)
+			}
 			rs = append(rs, Stmt{SQL: "SELECT id, plain FROM t1 WHERE id = 1", Tag: "after"})
 			rrun := pw.RunSession(reader, rs)
 			psite := site + "/" + map[string]string{"": "default-policy"}[policy] + policy
+			if allAt >= 0 && allAt < len(rrun.Results) {
+				res := rrun.Results[allAt]
+				if res.Err != "" || !res.Ready || len(res.Rows) != len(t1.Rows) {
+					w.Violate("C19", "all-rows-in-one-result", psite, fmt.Sprintf("%q: err=%q ready=%v rows=%d of %d (client error %q)", rs[allAt].SQL, res.Err, res.Ready, len(res.Rows), len(t1.Rows), rrun.ClientErr))
+				} else {
+					for k, row := range res.Rows {
+						stored := t1.Rows[k][2]
+						if len(row) < 3 || stored == nil {
+							continue
+						}
+						cell := row[2]
+						ok := true
+						switch {
+						case len(stored) == 0:
+							ok = len(cell) == 0 || (!mysql && format == 0 && string(cell) == "\\x")
+						case policy == "default_value":
+							got, derr := c19Decode(typ, format, cell)
+							ok = derr == nil && got == defText
+						default:
+							ok = bytes.Equal(cell, stored)
+							if !ok && format == 0 {
+								if dec, derr := decodeBytea(cell); derr == nil && bytes.Equal(dec, stored) {
+									ok = true
+								}
+							}
+						}
+						if !ok {
+							w.Violate("C19", "all-rows-in-one-result", psite, fmt.Sprintf("row %d of %d: reader got %.40q, stored cell is %.24x.. (policy %q)", k+1, len(res.Rows), cell, stored, policy))
+							break
+						}
+					}
+				}
+			}
 			for i, v := range values {
 				res := rrun.Results[i]
 				if res.Ready == false {
